@@ -177,6 +177,15 @@ func c11(p *Prog, r *Report) {
 					if !ok || s.Of(ia.Index).String() != src.Args[1].String() || !strings.HasPrefix(s.Of(ia.X).String(), "make(len(param:2)") {
 						continue
 					}
+					// the scalar object must be created per iteration: its allocation
+					// site lies in the loop that stores it (one hoisted object would
+					// make every blinds[i] the same pointer, holding the last blind)
+					alloc, isInstr := cc.Value.(ssa.Instruction)
+					loop := innermostLoop(naturalLoops(fn), st.Block())
+					if !isInstr || loop == nil || !loop.Blocks[alloc.Block()] {
+						seen = append(seen, "scalar stored into blinds[i] is allocated outside the loop")
+						continue
+					}
 					for _, db := range sitesIn(fn, func(n string) bool { return strings.HasSuffix(n, "oprf.client).DeterministicBlind") }) {
 						if arg(s.callTerm(db), 2).String() == s.Of(ia.X).String() {
 							found = true
